@@ -1,11 +1,16 @@
-(* C10 — a dependency survives the round trip through its PEP 508 text: the name-normalisation part.
-   packaging.utils.canonicalize_name is re-implemented (Model/Marker.v: canon_name) and compared with the real function
-   on every run.  Proved: it is idempotent and insensitive to case, to the separator used and to the length of
-   separator runs, so spellings of one name share one normal form.  The lark requirement grammar, URL and VCS handling
-   (five hand-grown regexes in vcs/git.py, Link, urllib) are not modelled: the round trip itself is judged on the
-   implementation against packaging.requirements, probe versions and the environment grid. *)
+(* C10 — a dependency survives the round trip through its PEP 508 text.
+   (1) Name normalisation: packaging.utils.canonicalize_name is re-implemented (Model/Marker.v: canon_name) and compared with
+   the real function on every run.  Proved: it is idempotent and insensitive to case, to the separator used and to the length
+   of separator runs, so spellings of one name share one normal form.
+   (2) The registry fragment of the requirement parser and the printer base_pep_508_name (Model/Req.v: the lexer of
+   pep508.lark by hand for NAME, extras and version specs; compared with Requirement(...) and base_pep_508_name on every run,
+   on generated and on damaged texts).  Proved: the text printed for a registry dependency without extras whose constraint is
+   a single version, a half-line or a bounded range in normal form is read back as the same name and the same constraint.
+   Not modelled: extras in the round-trip theorem, markers inside requirements, URL and VCS handling (five hand-grown regexes
+   in vcs/git.py, Link, urllib): those parts of the round trip are judged on the implementation against
+   packaging.requirements, probe versions and the environment grid. *)
 From Coq Require Import List Bool NArith String Ascii.
-From PC Require Import Model.Pep440 Model.Marker Proofs.MarkerProofs.
+From PC Require Import Base.Result Model.Pep440 Model.VConstraint Model.Marker Model.Req Proofs.MarkerProofs Proofs.AnyIff Proofs.ConstraintText Proofs.ReqRoundTrip.
 Import ListNotations.
 
 Theorem C10_name_norm_idempotent : forall s, canon_name (canon_name s) = canon_name s.
@@ -20,3 +25,24 @@ Proof. exact canon_separator_runs. Qed.
 Print Assumptions C10_name_norm_separators.
 Example C10_example : canon_name "Foo__Bar.-baz" = "foo-bar-baz"%string /\ canon_name "foo-bar-baz" = "foo-bar-baz"%string.
 Proof. split; vm_compute; reflexivity. Qed.
+
+
+(* the PEP 508 text of a registry dependency parses back to the same name and the same constraint *)
+Theorem C10_registry_roundtrip : forall (name : string) r,
+  valid_name (list_ascii_of_string name) = true ->
+  match r with
+  | RV v => normal v = true
+  | RR (Some a) None _ false => normal a = true
+  | RR None (Some b) false _ => normal b = true
+  | RR (Some a) (Some b) _ _ => normal a = true /\ normal b = true /\ vltb a b = true /\ nondeg r = true /\ is_single_wildcard_range r = false
+  | _ => False
+  end ->
+  exists s, dep_text name [] (VOne r) = Some s /\ req_parse s = ReqOk name [] (VOne r).
+Proof. exact registry_roundtrip. Qed.
+Print Assumptions C10_registry_roundtrip.
+Example C10_registry_example :
+  exists a b, parse "1.2" = Some a /\ parse "2.0rc1" = Some b /\ normal a = true /\ normal b = true /\
+    dep_text "Foo_Bar.zip" [] (VOne (RR (Some a) (Some b) true false)) = Some "Foo_Bar.zip (>=1.2,<2.0rc1)"%string /\
+    req_parse "Foo_Bar.zip (>=1.2,<2.0rc1)" = ReqOk "Foo_Bar.zip" [] (VOne (RR (Some a) (Some b) true false)) /\
+    req_parse "  Foo_Bar.zip[b, a]>= 1.2 ,<2.0rc1" = ReqOk "Foo_Bar.zip" ["b"; "a"]%string (VOne (RR (Some (mkV (epoch a) (rel a) None None None None "1.2")) (Some b) true false)).
+Proof. do 2 eexists. repeat split; vm_compute; reflexivity. Qed.
